@@ -59,6 +59,11 @@ func (a *MajorityStrategy) Compute(snapshots <-chan *asset.Snapshot) <-chan Acti
 				result <- Hold
 			}
 		}
+
+		// One source ended; consume what the others still hold so that no stage is left blocked.
+		for _, source := range sources {
+			helper.Drain(source)
+		}
 	}()
 
 	return result
